@@ -194,6 +194,27 @@ theorem timelimit_counter_functional (N : Nat) (E : Env S A O R K) (k0 : K) (his
 
 end timelimit
 
+/-! ### adapters -/
+
+section adapters
+variable {S A O R K : Type} [Keys K]
+
+/-- **The Gymnasium adapter reproduces the trajectory of the environment it adapts**: the outputs
+    of any sequence of adapter steps are the outputs of the adapted environment's own `step`
+    chained from the adapter's state under the adapter's key schedule (`key, step_key = split`). -/
+theorem adapter_trajectory (E : Env S A O R K) (ad : GymAdapter S K) (actions : List A) :
+    GymAdapter.run E ad actions = envRun E ad.state ad.key actions := by
+  induction actions generalizing ad with
+  | nil => rfl
+  | cons a as ih => simp [GymAdapter.run, envRun, GymAdapter.step, ih]
+
+/-- `reset` hands back the adapted environment's own reset (state kept, observation returned) -/
+theorem adapter_reset (E : Env S A O R K) (ad : GymAdapter S K) (seed : Option K) :
+    (ad.reset E seed).1.state = (E.reset (sub (seed.getD ad.key) 1)).1 ∧
+    (ad.reset E seed).2 = (E.reset (sub (seed.getD ad.key) 1)).2 := ⟨rfl, rfl⟩
+
+end adapters
+
 /-! ### rescale_box and clip -/
 
 section rescale
